@@ -80,6 +80,28 @@ type stPiPsd struct {
 	P2 *string `vgirpc:"p2,default=dflt"`
 }
 
+// structs that legitimately declare a field whose wire name is "request"
+type stRqI struct {
+	Request []byte `vgirpc:"request"`
+	P2      int64  `vgirpc:"p2"`
+}
+type stSRqn struct {
+	P1      string `vgirpc:"p1"`
+	Request []byte `vgirpc:"request,nullable"`
+}
+type stRqs struct {
+	Request string `vgirpc:"request"`
+}
+type stIdRqPs struct {
+	P1      int64   `vgirpc:"p1,default=42"`
+	Request []byte  `vgirpc:"request"`
+	P3      *string `vgirpc:"p3"`
+}
+type stRqlS struct {
+	Request []byte `vgirpc:"request,large_binary"`
+	P2      string `vgirpc:"p2"`
+}
+
 // journal records every handler invocation with the parameters it received.
 type journal struct {
 	mu    sync.Mutex
@@ -131,6 +153,11 @@ var staticPalette = map[string]*staticMethod{
 	"fd,bd,s":     mk[stFdBdS]("m_fd_bd_s"),
 	"l,ts":        mk[stLTs]("m_l_ts"),
 	"pi,psd":      mk[stPiPsd]("m_pi_psd"),
+	"rq,i":        mk[stRqI]("m_rq_i"),
+	"s,rqn":       mk[stSRqn]("m_s_rqn"),
+	"rqs":         mk[stRqs]("m_rqs"),
+	"id,rq,ps":    mk[stIdRqPs]("m_id_rq_ps"),
+	"rql,s":       mk[stRqlS]("m_rql_s"),
 }
 
 // ---- Declare ---------------------------------------------------------------------------
@@ -307,17 +334,119 @@ func appendCell(b array.Builder, dt arrow.DataType, null bool, avoidDefault bool
 type builtBatch struct {
 	batch arrow.RecordBatch
 	sent  map[string]any // by column name (first occurrence)
+	inner *builtBatch    // the batch embedded in a "request" column's IPC payload, if any
+}
+
+func (b *builtBatch) release() {
+	if b == nil {
+		return
+	}
+	b.inner.release()
+	b.batch.Release()
+}
+
+// payload says what a (large) binary column named "request" carries (spec: Payload).
+type payload struct {
+	class string    // "-" | garbage | empty | null | ipc_equal | ipc_equal_g | ipc_retyped | ipc_nobatch | ipc_rel
+	inner []colDesc // schema of the embedded batch (ipc_* classes)
+	ireq  string    // class of the embedded batch's own "request" column
+}
+
+func payloadOf(args map[string]any) payload {
+	pl := payload{class: replay.Str(args, "req"), ireq: replay.Str(args, "ireq")}
+	if pl.class == "" {
+		pl.class = "-"
+	}
+	pl.inner = colsOf(args["inner"])
+	return pl
+}
+
+func isPayloadCol(c colDesc) bool {
+	return c.Name == "request" && (c.Type == "binary" || c.Type == "large_binary")
+}
+
+// ipcStream writes schema (and batch, when given) the way any Arrow producer would.
+func ipcStream(sc *arrow.Schema, batch arrow.RecordBatch) ([]byte, error) {
+	var buf bytes.Buffer
+	w := ipc.NewWriter(&buf, ipc.WithSchema(sc))
+	if batch != nil {
+		if err := w.Write(batch); err != nil {
+			return nil, err
+		}
+	}
+	if err := w.Close(); err != nil {
+		return nil, err
+	}
+	return buf.Bytes(), nil
+}
+
+// garbage draws non-empty bytes that do not start an IPC stream. They are chosen so
+// that a decoder which does try to open them fails fast (no length prefix that makes
+// the IPC reader allocate gigabytes): junk behind a small legacy length prefix, fewer
+// bytes than a prefix, or a real stream cut inside its schema message.
+func garbage(rng *rand.Rand) ([]byte, error) {
+	switch rng.Intn(3) {
+	case 0:
+		n := 1 + rng.Intn(24)
+		v := make([]byte, 4+n)
+		v[0] = byte(n) // little-endian int32 length = n
+		rng.Read(v[4:])
+		return v, nil
+	case 1:
+		return []byte("xyz")[:1+rng.Intn(3)], nil
+	}
+	sc := arrow.NewSchema([]arrow.Field{{Name: "x", Type: arrow.PrimitiveTypes.Int64}}, nil)
+	full, err := ipcStream(sc, nil)
+	if err != nil {
+		return nil, err
+	}
+	cut := 9 + rng.Intn(40)
+	if cut >= len(full) {
+		cut = len(full) / 2
+	}
+	return full[:cut], nil
+}
+
+// payloadBytes concretises a payload class; for the ipc_* classes the embedded batch
+// is built column by column like any other batch of this driver.
+func (s *stepper) payloadBytes(pl payload) ([]byte, *builtBatch, error) {
+	switch pl.class {
+	case "empty":
+		return []byte{}, nil, nil
+	case "ipc_equal", "ipc_equal_g", "ipc_retyped", "ipc_rel", "ipc_nobatch":
+		in, err := s.buildBatch(pl.inner, nil, payload{class: pl.ireq})
+		if err != nil {
+			return nil, nil, err
+		}
+		var data []byte
+		if pl.class == "ipc_nobatch" {
+			data, err = ipcStream(in.batch.Schema(), nil)
+		} else {
+			data, err = ipcStream(in.batch.Schema(), in.batch)
+		}
+		if err != nil {
+			in.release()
+			return nil, nil, err
+		}
+		return data, in, nil
+	case "garbage", "-", "":
+		g, err := garbage(s.rng)
+		return g, nil, err
+	}
+	return nil, nil, fmt.Errorf("unknown request payload class %q", pl.class)
 }
 
 // buildBatch makes the one-row parameter batch of a Bind step. cells are per DECLARED
-// field (by name); columns the declaration does not know get a value.
-func (s *stepper) buildBatch(cols []colDesc, cells []string) (*builtBatch, error) {
+// field (by name); columns the declaration does not know get a value. A (large) binary
+// column named "request" carries the payload pl (a declared one may carry a null cell).
+func (s *stepper) buildBatch(cols []colDesc, cells []string, pl payload) (*builtBatch, error) {
 	mem := memory.NewGoAllocator()
 	fields := make([]arrow.Field, 0, len(cols))
 	arrs := make([]arrow.Array, 0, len(cols))
 	sent := map[string]any{}
 	cellOf := map[string]string{}
 	hasDefault := map[string]bool{}
+	var inner *builtBatch
 	for i, f := range s.dfields {
 		if i < len(cells) {
 			cellOf[f.Name] = cells[i]
@@ -332,8 +461,30 @@ func (s *stepper) buildBatch(cols []colDesc, cells []string) (*builtBatch, error
 		fields = append(fields, arrow.Field{Name: c.Name, Type: dt, Nullable: c.Nullable})
 		b := array.NewBuilder(mem, dt)
 		_, seen := sent[c.Name]
-		v, err := appendCell(b, dt, cellOf[c.Name] == "null" && !seen, hasDefault[c.Name], s.rng)
-		if err != nil {
+		var v any
+		if isPayloadCol(c) {
+			bin, ok := b.(*array.BinaryBuilder)
+			if !ok {
+				return nil, fmt.Errorf("builder for %s is %T", c.Type, b)
+			}
+			if (cellOf[c.Name] == "null" && !seen) || pl.class == "null" {
+				bin.AppendNull()
+			} else {
+				data, in, err := s.payloadBytes(pl)
+				if err != nil {
+					return nil, err
+				}
+				if in != nil {
+					if inner == nil {
+						inner = in
+					} else {
+						in.release()
+					}
+				}
+				bin.Append(data)
+				v = data
+			}
+		} else if v, err = appendCell(b, dt, cellOf[c.Name] == "null" && !seen, hasDefault[c.Name], s.rng); err != nil {
 			return nil, err
 		}
 		if !seen {
@@ -348,7 +499,7 @@ func (s *stepper) buildBatch(cols []colDesc, cells []string) (*builtBatch, error
 	for _, a := range arrs {
 		a.Release()
 	}
-	return &builtBatch{batch: batch, sent: sent}, nil
+	return &builtBatch{batch: batch, sent: sent, inner: inner}, nil
 }
 
 // fieldLabels classifies what each declared field of a bound struct holds:
@@ -446,6 +597,8 @@ func outcomeOf(err error) string {
 		return "schema_mismatch"
 	case strings.Contains(m, "default for") || strings.Contains(m, "default value parsing"):
 		return "default_error"
+	case strings.Contains(m, "unwrapping request IPC"):
+		return "unwrap_error"
 	}
 	return "error: " + clip(m)
 }
@@ -459,11 +612,11 @@ func (s *stepper) bind(st replay.Step) (replay.Obs, error) {
 	cols := colsOf(st.Args["schema"])
 	cells := strs(st.Args["cells"])
 	via := replay.Str(st.Args, "via")
-	bb, err := s.buildBatch(cols, cells)
+	bb, err := s.buildBatch(cols, cells, payloadOf(st.Args))
 	if err != nil {
 		return nil, err
 	}
-	defer bb.batch.Release()
+	defer bb.release()
 	switch via {
 	case "direct":
 		return s.bindDirect(bb, cells)
@@ -633,53 +786,46 @@ func (s *stepper) bindWrapped(st replay.Step) (obs replay.Obs, err error) {
 	if s.modelDrift != "" {
 		return nil, fmt.Errorf("model drift, no verdict: %s", s.modelDrift)
 	}
-	cols := colsOf(st.Args["schema"])
 	cells := strs(st.Args["cells"])
-	inner, err := s.buildBatch(cols, cells)
+	pl := payloadOf(st.Args)
+	if pl.class == "ipc_rel" && !reflect.DeepEqual(append([]colDesc{}, colsOf(st.Args["schema"])...), append([]colDesc{}, pl.inner...)) {
+		return nil, fmt.Errorf("BindWrapped: embedded schema %v is not the relation's schema %v", pl.inner, st.Args["schema"])
+	}
+	// the reserved shape: the ONLY column is a binary column named "request"
+	outer, err := s.buildBatch([]colDesc{{Name: "request", Type: "binary"}}, nil, pl)
 	if err != nil {
 		return nil, err
 	}
-	defer inner.batch.Release()
-	var buf bytes.Buffer
-	w := ipc.NewWriter(&buf, ipc.WithSchema(inner.batch.Schema()))
-	if err := w.Write(inner.batch); err != nil {
-		return nil, err
-	}
-	if err := w.Close(); err != nil {
-		return nil, err
-	}
-	mem := memory.NewGoAllocator()
-	b := array.NewBinaryBuilder(mem, arrow.BinaryTypes.Binary)
-	b.Append(buf.Bytes())
-	arr := b.NewArray()
-	b.Release()
-	outer := array.NewRecordBatch(arrow.NewSchema([]arrow.Field{{Name: "request", Type: arrow.BinaryTypes.Binary}}, nil), []arrow.Array{arr}, 1)
-	arr.Release()
-	defer outer.Release()
+	defer outer.release()
 	defer func() {
 		if r := recover(); r != nil {
 			p := map[string]any{"PANIC": fmt.Sprint(r)}
 			obs, err = replay.Obs{"w_bound": p, "w_fields": p}, nil
 		}
 	}()
-	got, derr := vgirpc.VerifDeserializeParams(outer, s.dtype)
+	got, derr := vgirpc.VerifDeserializeParams(outer.batch, s.dtype)
 	obs = replay.Obs{"w_bound": derr == nil}
 	if derr != nil {
 		obs["w_fields"] = []string{}
+		obs["__note__"] = clip(derr.Error())
 		return obs, nil
 	}
-	obs["w_fields"] = s.fieldLabels(got, inner, cells)
+	from := outer.inner
+	if from == nil {
+		from = outer
+	}
+	obs["w_fields"] = s.fieldLabels(got, from, cells)
 	return obs, nil
 }
 
 func (s *stepper) bindOdd(st replay.Step) (obs replay.Obs, err error) {
 	cols := colsOf(st.Args["schema"])
 	cells := strs(st.Args["cells"])
-	bb, err := s.buildBatch(cols, cells)
+	bb, err := s.buildBatch(cols, cells, payload{class: "-"})
 	if err != nil {
 		return nil, err
 	}
-	defer bb.batch.Release()
+	defer bb.release()
 	defer func() {
 		if r := recover(); r != nil {
 			obs, err = replay.Obs{"odd_bound": false, "odd_outcome": "panic"}, nil
